@@ -35,6 +35,9 @@ type GNode struct {
 	Any    interface{}
 	Attrs  map[string]interface{}
 	Leaf   *GLeaf
+	// an exported reference field the stacker skips: still part of the graph
+	// the deep copier has to reproduce
+	Skip *GNode `dials:"-"`
 }
 
 type GLeaf struct {
@@ -86,6 +89,7 @@ type NodeDesc struct {
 	HasAttrs bool               `json:"has_attrs,omitempty"`
 	Attrs    map[string]AnyDesc `json:"attrs,omitempty"`
 	Leaf     *LeafDesc          `json:"leaf,omitempty"`
+	SkipP1   int                `json:"skip_p1,omitempty"` // node index + 1 for the dials:"-" field, 0 = nil
 }
 
 type GraphDesc struct {
@@ -192,6 +196,9 @@ func genGraph(t *rapid.T) GraphDesc {
 			nd.ByName = rapid.IntRange(0, nm-1).Draw(t, "byname")
 		}
 		nd.Any = genAny(t, n, nm, i, "any")
+		if rapid.IntRange(0, 2).Draw(t, "has_skip") == 0 {
+			nd.SkipP1 = genNodeRef(t, n, "skip") + 1
+		}
 		if rapid.IntRange(0, 2).Draw(t, "has_attrs") == 0 {
 			nd.HasAttrs = true
 			nd.Attrs = map[string]AnyDesc{}
@@ -348,6 +355,7 @@ func instantiate(g GraphDesc) *graphInst {
 	for i, nd := range g.Nodes {
 		n := gi.nodes[i]
 		n.Next = gi.node(nd.Next)
+		n.Skip = gi.node(nd.SkipP1 - 1)
 		if nd.Kids != nil {
 			n.Kids = make([]*GNode, 0, len(nd.Kids))
 			for _, k := range nd.Kids {
@@ -813,7 +821,7 @@ func (l *lazySource) Value(_ context.Context, t *dials.Type) (reflect.Value, err
 func TestC03Graphs(t *testing.T) {
 	vrt.Check(t, vrt.Prop[C03Case]{
 		ID: "C03", Name: "graphs",
-		Rule: "object graphs of 0..8 nodes over the fixed family GNode/GLeaf/GRoot with arbitrary edges through struct-field pointers, slices, arrays, maps, shared maps / *int, and interface payloads (*GNode, GNode by value, map[string]*GNode, []*GNode, [1]*GNode, []interface{}, a node's own Attrs map); " +
+		Rule: "object graphs of 0..8 nodes over the fixed family GNode/GLeaf/GRoot with arbitrary edges through struct-field pointers (one of them an exported field tagged dials:\"-\", which stacking skips but the copy must still reproduce), slices, arrays, maps, shared maps / *int, and interface payloads (*GNode, GNode by value, map[string]*GNode, []*GNode, [1]*GNode, []interface{}, a node's own Attrs map); " +
 			"copied directly by the deep copier (root *GNode or *GRoot), by Config with the graph in defaults and in a source value, and by a watcher re-stack; oracle: terminates, reflect.DeepEqual, and the in->out map of pointer/map references in fields, elements and map values is a function with a fresh range; " +
 			"non-trivial = the graph has a cycle or a reference with in-degree >= 2; distinct = distinct case JSON",
 		Assumptions: []string{
